@@ -1,0 +1,134 @@
+// Copyright 2023 Ross Light
+//
+// Licensed under the Apache License, Version 2.0 (the "License");
+// you may not use this file except in compliance with the License.
+// You may obtain a copy of the License at
+//
+//		 https://www.apache.org/licenses/LICENSE-2.0
+//
+// Unless required by applicable law or agreed to in writing, software
+// distributed under the License is distributed on an "AS IS" BASIS,
+// WITHOUT WARRANTIES OR CONDITIONS OF ANY KIND, either express or implied.
+// See the License for the specific language governing permissions and
+// limitations under the License.
+//
+// SPDX-License-Identifier: Apache-2.0
+
+//go:build verif
+
+package commonmark
+
+// This file is only compiled with the "verif" build tag.
+// It exports read-only views of unexported recognizers, classifiers and
+// parser state for external runtime monitors.
+// Nothing in the library calls these functions.
+
+// VerifATXHeading is the result of [VerifParseATXHeading].
+type VerifATXHeading struct {
+	Level        int
+	ContentStart int
+	ContentEnd   int
+}
+
+// VerifParseATXHeading exposes parseATXHeading.
+func VerifParseATXHeading(line []byte) VerifATXHeading {
+	h := parseATXHeading(line)
+	return VerifATXHeading{Level: h.level, ContentStart: h.content.Start, ContentEnd: h.content.End}
+}
+
+// VerifParseThematicBreak exposes parseThematicBreak.
+func VerifParseThematicBreak(line []byte) int {
+	return parseThematicBreak(line)
+}
+
+// VerifParseSetextUnderline exposes parseSetextHeadingUnderline.
+func VerifParseSetextUnderline(line []byte) int {
+	return parseSetextHeadingUnderline(line)
+}
+
+// VerifCodeFence is the result of [VerifParseCodeFence].
+type VerifCodeFence struct {
+	Char      byte
+	N         int
+	InfoStart int
+	InfoEnd   int
+}
+
+// VerifParseCodeFence exposes parseCodeFence.
+func VerifParseCodeFence(line []byte) VerifCodeFence {
+	f := parseCodeFence(line)
+	return VerifCodeFence{Char: f.char, N: f.n, InfoStart: f.info.Start, InfoEnd: f.info.End}
+}
+
+// VerifListMarker is the result of [VerifParseListMarker].
+type VerifListMarker struct {
+	Delim byte
+	N     int
+	End   int
+}
+
+// VerifParseListMarker exposes parseListMarker.
+func VerifParseListMarker(line []byte) VerifListMarker {
+	m := parseListMarker(line)
+	return VerifListMarker{Delim: m.delim, N: m.n, End: m.end}
+}
+
+// VerifIsASCIIPunctuation exposes isASCIIPunctuation.
+func VerifIsASCIIPunctuation(c byte) bool { return isASCIIPunctuation(c) }
+
+// VerifIsASCIIControl exposes isASCIIControl.
+func VerifIsASCIIControl(c byte) bool { return isASCIIControl(c) }
+
+// VerifIsSpaceTabOrLineEnding exposes isSpaceTabOrLineEnding.
+func VerifIsSpaceTabOrLineEnding(c byte) bool { return isSpaceTabOrLineEnding(c) }
+
+// VerifIsHex exposes isHex.
+func VerifIsHex(c byte) bool { return isHex(c) }
+
+// VerifIsASCIILetter exposes isASCIILetter.
+func VerifIsASCIILetter(c byte) bool { return isASCIILetter(c) }
+
+// VerifIsASCIIDigit exposes isASCIIDigit.
+func VerifIsASCIIDigit(c byte) bool { return isASCIIDigit(c) }
+
+// VerifIsUnicodeWhitespace exposes isUnicodeWhitespace.
+func VerifIsUnicodeWhitespace(c rune) bool { return isUnicodeWhitespace(c) }
+
+// VerifIsUnicodePunctuation exposes isUnicodePunctuation.
+func VerifIsUnicodePunctuation(c rune) bool { return isUnicodePunctuation(c) }
+
+// VerifParseCharacterEscape exposes parseCharacterEscape.
+func VerifParseCharacterEscape(text []byte) int { return parseCharacterEscape(text) }
+
+// VerifParseAutolink exposes parseAutolink.
+func VerifParseAutolink(text []byte) int { return parseAutolink(text) }
+
+// VerifEmphasisFlags exposes emphasisFlags for the delimiter run source[start:end].
+func VerifEmphasisFlags(source []byte, start, end int) (canOpen, canClose bool) {
+	flags := emphasisFlags(source, Span{Start: start, End: end})
+	return flags&openerFlag != 0, flags&closerFlag != 0
+}
+
+// VerifBlockParserState is a snapshot of a [BlockParser]'s bookkeeping fields.
+type VerifBlockParserState struct {
+	Offset      int64 // stream offset of buf[0]
+	Lineno      int   // line number of buf[0]
+	BufLen      int   // len(buf), NUL-padded
+	Pos         int   // parse position in buf
+	UnpaddedLen int   // length of buf in original (unpadded) bytes
+	Err         error // latched reader error
+	Pending     int   // closed top-level blocks not yet returned
+}
+
+// VerifState returns a read-only snapshot of the parser's bookkeeping.
+func (p *BlockParser) VerifState() VerifBlockParserState {
+	return VerifBlockParserState{
+		Offset:      p.offset,
+		Lineno:      p.lineno,
+		BufLen:      len(p.buf),
+		Pos:         p.i,
+		UnpaddedLen: unpaddedNullLength(p.buf),
+		Err:         p.err,
+		Pending:     len(p.blocks),
+	}
+}
